@@ -329,6 +329,8 @@ func SemHistories(h *Hist, seed int64, runs int, stats map[string]int) {
 		warnCh := make(chan struct{}, 64)
 		s := datasemaphore.New(dag.Metric{Num: idx.Event(capN), Size: uint64(capS)}, func(received, processing, releasing dag.Metric) {
 			warnCh <- struct{}{}
+			// a slow callback (it belongs to the application): whoever runs it must still make check-and-reset one step
+			time.Sleep(300 * time.Microsecond)
 		})
 		h.Reset(rec{"scen": run + 1, "cap": rec{"num": capN, "size": capS}})
 		G := 2 + r.Intn(3)
